@@ -31,6 +31,7 @@ class Unfoldable(Exception):
 STD_CONSTS = {
     'string.ascii_letters': _string.ascii_letters, 'string.ascii_lowercase': _string.ascii_lowercase,
     'string.ascii_uppercase': _string.ascii_uppercase, 'string.digits': _string.digits,
+    'errno.EMFILE': 24, 'errno.ENFILE': 23, 'errno.ENOENT': 2, 'errno.EACCES': 13,
     're.UNICODE': re.UNICODE, 're.IGNORECASE': re.IGNORECASE, 're.I': re.I, 're.U': re.U,
 }
 PURE_FUNCS = {
@@ -64,9 +65,10 @@ PURE_FUNCS = {k: v for k, v in PURE_FUNCS.items() if v is not None}
 class Raised(Unfoldable):
     """an exception the interpreted code raises (by a raise statement, a failing unpacking / conversion / lookup): caught by the interpreted
     try statements; for constant folding it is just another reason why an expression has no value"""
-    def __init__(self, name, msg=''):
+    def __init__(self, name, msg='', errno=24):
         super().__init__(f'{name}: {msg}')
         self.name = name
+        self.errno = errno
 
 
 EXC_BASES = {'KeyError': ('LookupError',), 'IndexError': ('LookupError',), 'ValueError': (), 'TypeError': (), 'AssertionError': (), 'AttributeError': (), 'ZeroDivisionError': ('ArithmeticError',),
@@ -86,10 +88,16 @@ def _exc_matches(name, handler_type, is_subclass=None):
     return False
 
 
+class ExternalRef:
+    """a function of the outside world held in a variable (`opener = gzip.open`): calls go to the rule's call hook under that name"""
+    def __init__(self, name):
+        self.name = name
+
+
 class LocalFn:
     """a function defined inside an interpreted function (closure over the defining scope)"""
-    def __init__(self, fdef, scope):
-        self.fdef, self.scope = fdef, scope
+    def __init__(self, fdef, scope, bound=None):
+        self.fdef, self.scope, self.bound = fdef, scope, bound
 PURE_METHODS = {
     str: {'join', 'upper', 'lower', 'index', 'find', 'count', 'startswith', 'endswith', 'replace', 'strip', 'split', 'translate', 'format', 'zfill'},
     dict: {'get', 'keys', 'values', 'items', 'copy'},
@@ -137,6 +145,15 @@ class Evaluator:
                 if v is TOP:
                     raise Unfoldable(d)
                 return v
+            # attributes of values the interpreter holds: bound read-only methods of containers (as key functions), fields of a caught exception
+            try:
+                base = self.ev(e.value, env)
+            except Unfoldable:
+                raise Unfoldable(f'attribute {src(e)}')
+            if isinstance(base, dict) and e.attr in ('get', '__getitem__', 'keys', 'values', 'items'):
+                return getattr(base, e.attr)
+            if isinstance(base, Raised):
+                return {'errno': base.errno, 'args': (), 'strerror': 'modelled failure'}.get(e.attr, None)
             raise Unfoldable(f'attribute {src(e)}')
         if isinstance(e, ast.Tuple):
             return tuple(self.ev(x, env) for x in e.elts)
@@ -168,7 +185,7 @@ class Evaluator:
                 try:
                     return ops[type(e.op)](l, r)
                 except Exception as ex:
-                    raise Unfoldable(str(ex))
+                    raise Raised(type(ex).__name__, str(ex))
         if isinstance(e, ast.BoolOp):
             if isinstance(e.op, ast.And):
                 v = True
@@ -282,10 +299,17 @@ class Evaluator:
                 if not isinstance(extra, dict):
                     raise Unfoldable('**kwargs')
                 kwargs.update(extra)
+        if isinstance(e.func, ast.Name) and isinstance(env.get(e.func.id), ExternalRef) and self.call_hook is not None:
+            ref = env[e.func.id]
+            synth = ast.copy_location(ast.Call(func=ast.parse(ref.name, mode='eval').body, args=e.args, keywords=e.keywords), e)
+            r = self.call_hook(self, synth, env)
+            if r is not NotImplemented:
+                return r
+            raise Unfoldable(f'call {ref.name}')
         if isinstance(e.func, ast.Name) and isinstance(env.get(e.func.id), LocalFn):
             lf = env[e.func.id]
             self.budget -= 5
-            return run_function(lf.fdef, args, kwargs, env=lf.scope, budget=max(0, self.budget))
+            return run_function(lf.fdef, ([lf.bound] if lf.bound is not None else []) + args, kwargs, env=lf.scope, budget=max(0, self.budget), call_hook=self.call_hook)
         if d in ('itertools.takewhile', 'takewhile', 'itertools.dropwhile', 'dropwhile', 'filter', 'map') and len(e.args) == 2 and (
                 isinstance(e.args[0], ast.Lambda) or (isinstance(e.args[0], ast.Name) and isinstance(env.get(e.args[0].id), (ast.Lambda, LocalFn)))):
             fn_ = e.args[0] if isinstance(e.args[0], ast.Lambda) else env[e.args[0].id]
@@ -321,6 +345,17 @@ class Evaluator:
             for a_, v_ in zip(lam.args.args, args):
                 env2[a_.arg] = v_
             return self.ev(lam.body, env2)
+        # key functions written as lambdas / local functions / bound dict.get
+        if d in ('sorted', 'min', 'max') and 'key' in kwargs and isinstance(kwargs['key'], (ast.Lambda, LocalFn)):
+            kf = kwargs['key']
+
+            def keyfn(x, kf=kf):
+                if isinstance(kf, ast.Lambda):
+                    env2 = dict(env)
+                    env2[kf.args.args[0].arg] = x
+                    return self.ev(kf.body, env2)
+                return run_function(kf.fdef, ([kf.bound] if kf.bound is not None else []) + [x], env=kf.scope, budget=max(0, self.budget), call_hook=self.call_hook)
+            kwargs = dict(kwargs, key=keyfn)
         if d in PURE_FUNCS:
             try:
                 r = PURE_FUNCS[d](*args, **kwargs)
@@ -437,8 +472,22 @@ def run_function(fdef, args, kwargs=None, env=None, budget=20000, call_hook=None
                 if active:
                     raise active[-1]
                 raise Raised('RuntimeError', 'no active exception')
+            if isinstance(s.exc, ast.Name) and isinstance(scope.get(s.exc.id), Raised):
+                raise scope[s.exc.id]           # `raise e` of a caught exception
             e_ = s.exc.func if isinstance(s.exc, ast.Call) else s.exc
             raise Raised((dotted(e_) or '?').split('.')[-1], src(s.exc)[:60])
+        elif isinstance(s, ast.Delete):
+            for t in s.targets:
+                if isinstance(t, ast.Subscript):
+                    cont = ev.ev(t.value, scope)
+                    try:
+                        del cont[ev.ev(t.slice, scope)]
+                    except Exception as ex:
+                        raise Raised(type(ex).__name__, str(ex))
+                elif isinstance(t, ast.Name):
+                    scope.pop(t.id, None)
+                else:
+                    raise Unfoldable('del target')
         elif isinstance(s, ast.Assert):
             if not ev.ev(s.test, scope):
                 raise Raised('AssertionError', src(s.test)[:60])
